@@ -441,6 +441,7 @@ def step (s : St) (toks : List String) : St × String :=
   | [] => (s, "bad-op")
   | ["dev", "S"] => ({}, "ok")
   | ["dev", "O"] => ({ omp := true }, "ok")
+  | ["swapdev"] => ({ omp := !s.omp }, "ok")
   | op :: rest =>
     if op.startsWith "f." then floatOp s false (op.drop 2).toString rest
     else if op.startsWith "d." then floatOp s true (op.drop 2).toString rest
